@@ -66,6 +66,8 @@ P(key, vk, vn) == [key |-> key, vk |-> vk, vn |-> vn]
 PropPool == {P("id", "int", ""), P("name", "str", ""), P("ra", "ref", "@a"), P("rb", "ref", "@b"),
              P("la", "arr", "@a"), P("en", "enum", "@e"), P("k1", "int", ""), P("k2", "str", "")}
             \cup (IF "nested" \in Features THEN {P("no", "nobj", "@b"), P("nc", "nobj", "@c")} ELSE {})
+            \* "opt": "op": 1 // {optional: true}      "note": "nt": "v" // a note
+            \cup (IF "rules" \in Features THEN {P("op", "opt", ""), P("nt", "note", "")} ELSE {})
 SmallPropPool == {P("id", "int", ""), P("rb", "ref", "@b"), P("en", "enum", "@e")}
 
 PropSeqs == IF Rich
@@ -120,7 +122,7 @@ MethodDeclChoices(p) == IF "methoddecl" \in Features THEN DeclChoices(p) ELSE {<
 GenMethod(s, paths) ==
   {Meth(v, p, a, d, t, q, rq, rh, rs, pd) :
      v \in Pick(s, Verbs), p \in Pick(s, paths), a \in Pick(s, Annots), d \in Pick(s, Descs), t \in Pick(s, TagSeqs),
-     q \in Pick(s, {"", "plain", "example"}),
+     q \in Pick(s, {"", "plain", "example", "noformat"}),
      rq \in (IF Exhaustive THEN {NoSpec} ELSE {NoSpec} \cup GenSpec(s)), rh \in Pick(s, BOOLEAN),
      rs \in GenResps(s), pd \in {<< >>}}   \* the Path declaration is chosen where the full path is known
 
@@ -285,13 +287,16 @@ Valid(d) ==
 (* The catalog a valid document denotes                                    *)
 
 \* kids: for a nested object, its own children as <<key, inheritedFrom>> pairs
-Child(key, tt, ty, sc, inh) == [key |-> key, tt |-> tt, type |-> ty, scalar |-> sc, inh |-> inh, kids |-> << >>]
+Child(key, tt, ty, sc, inh) == [key |-> key, tt |-> tt, type |-> ty, scalar |-> sc, inh |-> inh, kids |-> << >>,
+                                optional |-> FALSE, note |-> ""]
 PropView(p, inh) ==
   CASE p.vk = "int"  -> Child(p.key, "number", "integer", "1", inh)
     [] p.vk = "str"  -> Child(p.key, "string", "string", "v", inh)
     [] p.vk = "ref"  -> Child(p.key, "reference", p.vn, p.vn, inh)
     [] p.vk = "arr"  -> Child(p.key, "array", "array", p.vn, inh)      \* scalar = item type
     [] p.vk = "enum" -> Child(p.key, "string", "enum", "x", inh)
+    [] p.vk = "opt"  -> [Child(p.key, "number", "integer", "1", inh) EXCEPT !.optional = TRUE]
+    [] p.vk = "note" -> [Child(p.key, "string", "string", "v", inh) EXCEPT !.note = "a note"]
 
 \* children of an object body: for every base, in the order named, all its children (own and
 \* inherited) marked with that base; then the own properties
@@ -342,7 +347,8 @@ InterView(d, e) ==
     [id |-> IdOf(e), proto |-> "http", method |-> e.m.verb, path |-> PathStr(e.path),
      annot |-> e.m.annot, desc |-> e.m.desc, tags |-> TagsOfEntry(e),
      query |-> IF e.m.query = "" THEN << >>
-               ELSE << [format |-> "htmlFormEncoded", example |-> IF e.m.query = "example" THEN "q1=1" ELSE "",
+               ELSE << [format |-> IF e.m.query = "noformat" THEN "noFormat" ELSE "htmlFormEncoded",
+                        example |-> IF e.m.query = "example" THEN "q1=1" ELSE "",
                         schema |-> SchemaView(tt, QueryBody)] >>,
      request |-> IF e.m.req.form = "none" THEN << >>
                  ELSE << [format |-> FormatOf(e.m.req.b), schema |-> SchemaView(tt, e.m.req.b),
